@@ -1,0 +1,60 @@
+//go:build verif
+
+package common
+
+// Contracts for the deductive checker in /verif (comment-only; compiled only with -tags verif).
+// C05-run (agent AA): the common entry code of every stateful precompile - method selection, write protection of read-only
+// frames, argument decoding, gas-meter set-up (precompile.go). Lib specs: /verif/specs/c05r_pre (gas / context model),
+// /verif/specs/c05r (ABI lookup, decoding, StateDB entry points).
+
+// anyListR names the type of ABI argument lists in lib specs (specs/c05r/60_setup.spec).
+type anyListR = []interface{}
+
+/*@
+alias SDBc github.com/haqq-network/haqq/x/evm/statedb.StateDB
+alias BigIntC math/big.Int
+const glob_vm_ErrWriteProtection error
+const glob_vm_ErrExecutionReverted error
+
+// building the deferred out-of-gas handler has no effect (its body is under contract on its own: HandleGasError$1, C05-gas)
+func HandleGasError
+    inline
+
+// ---- RequiredGas (called by vm.runPrecompiledContract BEFORE Run, with the raw call data)
+// flat cost + per-byte cost of the argument bytes, write costs for a transaction and read costs for a query.
+// Precondition from the call sites (RequiredGas of staking / distribution / ics20): they have sliced `input[:4]` before - see
+// FINDING AA1 there: nothing guarantees four bytes of call data at THEIR call site
+func (Precompile).RequiredGas
+    requires four: len(input) >= 4
+    // Go invariant: a length is an int
+    requires golen: len(input) <= 9223372036854775807
+    ensures tx: isTransaction ==> result == p.KvGasConfig.WriteCostFlat + p.KvGasConfig.WriteCostPerByte * (len(input) - 4)
+    ensures query: !isTransaction ==> result == p.KvGasConfig.ReadCostFlat + p.KvGasConfig.ReadCostPerByte * (len(input) - 4)
+
+// ---- method selection
+// empty call data: `receive` when value is attached and the ABI has one, else `fallback` when the ABI has one, else revert
+func (Precompile).emptyCallData
+    requires wf: contract != nil && contract.value != nil
+    ensures receive: *contract.value > 0 && p.ABI.Receive.Type == 2 ==> result.1 == nil && result.0 != nil && *result.0 == p.ABI.Receive
+    ensures fallback: !(*contract.value > 0 && p.ABI.Receive.Type == 2) && p.ABI.Fallback.Type == 1 ==> result.1 == nil && result.0 != nil && *result.0 == p.ABI.Fallback
+    ensures revert: !(*contract.value > 0 && p.ABI.Receive.Type == 2) && p.ABI.Fallback.Type != 1 ==> result.1 != nil && result.0 == nil
+
+// 1..3 bytes of call data: `fallback` when the ABI has one, else revert
+func (Precompile).methodIDCallData
+    ensures fallback: p.ABI.Fallback.Type == 1 ==> result.1 == nil && result.0 != nil && *result.0 == p.ABI.Fallback
+    ensures revert: p.ABI.Fallback.Type != 1 ==> result.1 != nil && result.0 == nil
+
+// >= 4 bytes: the method of the ABI whose id is the first four bytes; when there is none, `fallback` if the ABI has one, else an error
+func (Precompile).standardCallData
+    requires wf: contract != nil && len(contract.Input) >= 4
+    let sel = sel4(contract.Input[0:4])
+    ensures selected: result.1 == nil && !(result.0 != nil && p.ABI.Fallback.Type == 1 && *result.0 == p.ABI.Fallback) ==> result.0 != nil && has(p.ABI.Methods, result.0.Name)
+            && *result.0 == p.ABI.Methods[result.0.Name] && abi_id_of(*result.0) == sel
+    ensures ok_nonnil: result.1 == nil ==> result.0 != nil
+    ensures unknown: (forall n string :: has(p.ABI.Methods, n) ==> abi_id_of(p.ABI.Methods[n]) != sel) && p.ABI.Fallback.Type != 1 ==> result.1 != nil && result.0 == nil
+    ensures unknown_fallback: (forall n string :: has(p.ABI.Methods, n) ==> abi_id_of(p.ABI.Methods[n]) != sel) && p.ABI.Fallback.Type == 1 ==> result.1 == nil && *result.0 == p.ABI.Fallback
+    ensures err_nil: result.1 != nil ==> result.0 == nil
+    // a selector the ABI knows is never refused here
+    ensures known: result.1 != nil ==> (forall n string :: has(p.ABI.Methods, n) ==> abi_id_of(p.ABI.Methods[n]) != sel)
+
+@*/
